@@ -721,10 +721,19 @@ comparisons of a logic value against a constant, bare assertions of nested formu
 `c01_partial` covers): for EVERY model that compiles and satisfies the contract, an assignment is
 source-feasible iff it extends, on the compiler's auxiliaries only, to a feasible point of the linear model.
 
+The contract `LogicModel m d` is STATIC: every side uses declared used variables only, has finite literals and
+is not flagged `nary-singleton-nonbinary` (`no_collapse_check`).  DEFINEDNESS IS NOT A HYPOTHESIS: a successful
+compilation proves every lowered side defined at every assignment (`linearize_exp_defined`,
+`lower_assertion_defined`, `process_constraint_defined`, `compile_objective_defined`).
+
 `_partial`: the excluded region is (i) models with an and/or node that collapses to a non-0/1 value on the
-domains (`c01_logic_counterexample`: C10's known finding, flag `nary-singleton-nonbinary`), (ii) sides undefined at an assignment satisfying the domains
-(`c01_defined_counterexample`; the variant with finite literals, an undefined operand pruned by `linearize_extreme`, is repaired: `c01_pruned_operand_regression`).  `DomRel`/`BoxEnforced` as in `c01_partial`; they are discharged for the whole
-pipeline in `c01_compile_logic_partial`. -/
+domains (`c01_logic_counterexample`: C10's known finding, flag `nary-singleton-nonbinary`), (ii) non-finite
+literals (`c01_defined_counterexample`), (iii) the RESIDUAL clause `VerdictDef` (finding 4): a comparison of a
+logic value with a literal that `try_normalize_logic_constraint` decides from the literal alone
+(`Tautology`/`Contradiction`) is not lowered by rooc, so for exactly those constraints definedness of the two
+sides stays a hypothesis (`verdict_check`: implied by `may_be_undefined = false`; void for bare assertions).
+`DomRel`/`BoxEnforced` as in `c01_partial`; they are discharged for the whole pipeline in
+`c01_compile_logic_partial`. -/
 theorem c01_logic_partial {m : Model (Ext K)} {b : BoundsMap (Ext K)} {d : List (DomVar (Ext K))}
     {lm : LinModel (Ext K)} (h : linearizeWith m b d = .ok lm)
     (hm : LogicModel m d) (hdom : DomRel m d) (hbox : BoxEnforced b d) (ρ : String → K) :
@@ -766,21 +775,75 @@ theorem defined_check {d : List (DomVar (Ext K))} {e : Exp (Ext K)} (hf : finite
   have := Rooc.Def_of_total ρ e hf hu
   exact ⟨_, Rooc.eval_of_Def this⟩
 
+/-- the residual clause `VerdictDef` from decidable checks: finite literals and `may_be_undefined = false` on
+both sides (or: the constraint is a bare assertion). -/
+theorem verdict_check {d : List (DomVar (Ext K))} {c : Constraint (Ext K)}
+    (h : c.isAssert = true ∨ (finiteLits c.lhs = true ∧ finiteLits c.rhs = true ∧
+      Exp.mayBeUndefined c.lhs = false ∧ Exp.mayBeUndefined c.rhs = false)) : VerdictDef d c := by
+  rcases h with h | ⟨h1, h2, h3, h4⟩
+  · exact VerdictDef.ofAssert h
+  · exact VerdictDef.ofDefOn (defined_check h1 h3) (defined_check h2 h4)
+
 /-- **the contract from decidable checks only**: well-scoped, finite literals, not flagged
-`nary-singleton-nonbinary`, and `may_be_undefined = false` on every side. -/
+`nary-singleton-nonbinary` on every side; plus the residual clause on the constraints (`verdict_check`). -/
 theorem logicModel_of_checks {m : Model (Ext K)} {d : List (DomVar (Ext K))} (hnd : (d.map (·.name)).Nodup)
     (hobj : (∀ x ∈ varsOf m.objective, inScope d x) ∧ finiteLits m.objective = true ∧
-      collapsesNonbinary (isBoolVar d) m.objective = false ∧ Exp.mayBeUndefined m.objective = false)
+      collapsesNonbinary (isBoolVar d) m.objective = false)
     (hcons : ∀ c ∈ m.constraints,
       ((∀ x ∈ varsOf c.lhs, inScope d x) ∧ finiteLits c.lhs = true ∧
-        collapsesNonbinary (isBoolVar d) c.lhs = false ∧ Exp.mayBeUndefined c.lhs = false) ∧
+        collapsesNonbinary (isBoolVar d) c.lhs = false) ∧
       ((∀ x ∈ varsOf c.rhs, inScope d x) ∧ finiteLits c.rhs = true ∧
-        collapsesNonbinary (isBoolVar d) c.rhs = false ∧ Exp.mayBeUndefined c.rhs = false)) :
+        collapsesNonbinary (isBoolVar d) c.rhs = false) ∧
+      VerdictDef d c) :
     LogicModel m d := by
   have mk : ∀ e : Exp (Ext K), ((∀ x ∈ varsOf e, inScope d x) ∧ finiteLits e = true ∧
-      collapsesNonbinary (isBoolVar d) e = false ∧ Exp.mayBeUndefined e = false) → GoodE d e :=
-    fun e h => ⟨h.1, h.2.1, NCon.ofFlag hnd h.1 h.2.2.1, defined_check h.2.1 h.2.2.2⟩
-  exact ⟨mk _ hobj, fun c hc => ⟨mk _ (hcons c hc).1, mk _ (hcons c hc).2⟩⟩
+      collapsesNonbinary (isBoolVar d) e = false) → GoodS d e :=
+    fun e h => ⟨h.1, h.2.1, NCon.ofFlag hnd h.1 h.2.2⟩
+  exact ⟨mk _ hobj, fun c hc => ⟨mk _ (hcons c hc).1, mk _ (hcons c hc).2.1, (hcons c hc).2.2⟩⟩
+
+/-! ### compile succeeds ⇒ defined -/
+
+/-- **success of `Exp::linearize` proves definedness**: an expression with finite literals that is lowered
+successfully — any requirement, any state, no invariant — has a value at EVERY assignment.  (Every
+sub-expression is lowered or skipped under `!may_be_undefined()`: rooc 5a25b35, 46b0121.) -/
+theorem linearize_exp_defined {e : Exp (Ext K)} {req : Req} {s : St (Ext K)} {r : Ctx (Ext K) × St (Ext K)}
+    (h : linExp e req s = .ok r) (hf : finiteLits e = true) (ρ : String → K) : ∃ v, eval ρ e = some v :=
+  def_iff_exists.mp (def_of_linExp h hf ρ)
+
+/-- the same for `lower_logic_assertion` (with `try_lower_affine_logic_assertion`, `directional_logic_witness`
+and the `iff`/`xor` witnesses inside). -/
+theorem lower_assertion_defined {e : Exp (Ext K)} {t : Bool} {name : String} {s s' : St (Ext K)}
+    (h : lowerAssertion e t name s = .ok ((), s')) (hf : finiteLits e = true) (ρ : String → K) :
+    ∃ v, eval ρ e = some v :=
+  def_iff_exists.mp (def_of_lowerAssertion h hf ρ)
+
+/-- the same for `directional_logic_witness`. -/
+theorem directional_witness_defined {e : Exp (Ext K)} {t : Bool} {s : St (Ext K)} {r : Exp (Ext K) × St (Ext K)}
+    (h : dirWitness e t s = .ok r) (hf : finiteLits e = true) (ρ : String → K) : ∃ v, eval ρ e = some v :=
+  def_iff_exists.mp (dirWitness_def e t s r h hf ρ)
+
+/-- **one iteration of the loop on a source constraint under the static contract**: when it succeeds, the left
+side — and for a comparison the right side — AS WRITTEN BY THE USER (before `normalize`) has a value at every
+assignment satisfying the domains. -/
+theorem process_constraint_defined {d0 : List (DomVar (Ext K))} {c : Constraint (Ext K)} {s : St (Ext K)}
+    {r : Unit × St (Ext K)} (h : processConstraint c s = .ok r) (hc : SrcD d0 c) (ρ : String → K)
+    (hd : DomSat ρ d0) :
+    (∃ v, eval ρ c.lhs = some v) ∧ (c.isAssert = false → ∃ v, eval ρ c.rhs = some v) := by
+  obtain ⟨h1, h2⟩ := process_defined h hc ρ hd
+  exact ⟨def_iff_exists.mp h1, fun ha => def_iff_exists.mp (h2 ha)⟩
+
+/-- the objective of a model that compiles under the static contract is defined on the domains. -/
+theorem linearizeWith_objective_defined {m : Model (Ext K)} {b : BoundsMap (Ext K)} {d : List (DomVar (Ext K))}
+    {lm : LinModel (Ext K)} (hm : LogicModel m d) (h : linearizeWith m b d = .ok lm) : DefOn d m.objective :=
+  hm.obj_defined h
+
+/-- the whole pipeline: the objective has a value at every source-feasible assignment. -/
+theorem compile_objective_defined {m : Model (Ext K)} {t : K} (ht : 0 ≤ t) {maxSteps : Nat} {lm : LinModel (Ext K)}
+    (h : Compile.linearize m (.fin t) maxSteps = .ok lm)
+    (hm : LogicModel m m.domain) (hsh : AssertShape m) (hok : DeclOK m.domain)
+    (ht1 : t < 1 ∨ NoIntVars m.domain) (ρ : String → K) (hs : srcFeasible m ρ = true) :
+    ∃ v, eval ρ m.objective = some v :=
+  compile_obj_defined ht h hm hsh hok ht1 ρ hs
 
 /-- the piecewise-linear fragment is a special case. -/
 theorem logicModel_of_fragModel {m : Model (Ext K)} {d : List (DomVar (Ext K))} (h : FragModel true m d) :
